@@ -20,6 +20,12 @@ import (
 func init() {
 	registry["C20"] = checkC20
 	registry["C20CHILD"] = c20Child
+	registry["C20SVC"] = func(r *Run) {
+		logDir, _ := os.MkdirTemp("/tmp", "verif-c20race-")
+		defer os.RemoveAll(logDir)
+		c20Service(r, logDir)
+		c20RaceReports(r, logDir)
+	}
 }
 
 // ---- recorded history
@@ -609,6 +615,11 @@ func checkC20(r *Run) {
 	if !summary {
 		r.Inconclusive("the history runner did not finish")
 	}
+	c20Service(r, logDir)
+	c20RaceReports(r, logDir)
+}
+
+func c20RaceReports(r *Run, logDir string) {
 	reports := 0
 	var firstReport string
 	matches, _ := filepath.Glob(filepath.Join(logDir, "race*"))
